@@ -9,6 +9,12 @@ From CG Require Import Model.Check.
 From CG Require Import Model.Dfa.
 From CG Require Import Spec.Choice.
 From CGgen Require Import Consts.
+From CG Require Import Model.Tpl.
+From CG Require Import Model.Quote.
+From CG Require Import Spec.ShellDQ.
+From CG Require Import Model.Tables.
+From CG Require Import Model.EmitBash.
+From CG Require Import Spec.ScriptRead.
 From CG Require Import Spec.Mistakes.
 From CG Require Import Spec.Warnings.
 From CG Require Import Model.Minimize.
@@ -21,6 +27,7 @@ From CG Require Import Model.Lexer.
 From CG Require Import Model.Parser.
 From CG Require Import Spec.Printer.
 From CG Require Import Model.Ambiguity.
+From CG Require Import Model.Driver.
 (* add new Require lines above this line *)
 Require Import ExtrOcamlBasic ExtrOcamlString.
 Extraction Language OCaml.
@@ -35,6 +42,15 @@ Separate Extraction
   Dfa.mkall
   Dfa.trans_states
   Choice.spec
+  Quote.make_string_constant
+  ShellDQ.read
+  ShellDQ.read_list
+  ShellDQ.admissibleb
+  Tables.all_tables
+  Tables.valid_orders
+  Tables.isomorphic_to
+  EmitBash.script_of_dfa
+  ScriptRead.read_stmts
   Mistakes.present
   Mistakes.specs_have_command_plain
   Warnings.unused_plain
@@ -71,5 +87,6 @@ Separate Extraction
   Printer.wf_stmt
   Printer.erase_grammar
   Ambiguity.check_ambiguity_best_effort
+  Driver.compile
   (* add new roots above this line *)
   Prelude.pow2.
